@@ -306,7 +306,7 @@ impl Ctx {
                     let (allowed, _, _) = ref_complete(&line, false, &names_help, 1000);
                     allowed.iter().map(|a| a.len()).max().unwrap_or(line.len()).saturating_sub(line.len())
                 };
-                let mut caps: Vec<usize> = vec![line.len(), line.len() + cont_len.saturating_sub(1), line.len() + cont_len, line.len() + cont_len + 1, 64];
+                let mut caps: Vec<usize> = vec![line.len(), line.len() + cont_len.saturating_sub(1), line.len() + cont_len, line.len() + cont_len + 1, 64.max(line.len() + cont_len + 8)];
                 if cont_len > 2 {
                     caps.push(line.len() + 1);
                     caps.push(line.len() + cont_len / 2);
